@@ -14,6 +14,7 @@ namespace mon {
 uint64_t alloc_count();			// allocations since run_begin
 int64_t live_blocks_run();		// blocks allocated since run_begin and still live (debug-map entries excluded in debug mode)
 int64_t live_blocks_total();
+uint64_t block_seq(void *p);		// allocation serial of the live block at p, 0 if p is not a live block (tells a freed object from a live one)
 extern bool debug_mode_on;
 std::string live_blocks_desc(int max);	// "seq:size,..." of run-allocated live blocks
 void alloc_fail_at(uint64_t k, bool sticky);	// k-th allocation from now fails (k>=1); sticky: and all later ones
